@@ -41,6 +41,12 @@ judged there: checker-accepted prefix, exact distance, taxon, head = closest_mat
           in-memory ReferenceDatabase(genomeset, AnnotatedSignatures)         queryx, queryenv (sqlorder also: query)
   quant   queries: 1..25 per call, empty signature, repeated signature, SignatureList / SignatureArray / list /
           tuple / iterator / uint64 arrays / HDF5 file, FASTA files (query_parse, CLI positional, -l/--ldir)   queryx
+  quant   queries: the LABELS the batch carries (QueryInput.label is reporting only; nothing in the property lets a result depend
+          on it): 2..12 different query genomes (plus one given twice) of ONE batch with equal labels, all-empty labels, labels
+          drawn from a pool of 1-3, exactly one colliding pair, the default labels '1'..'n' standing at other positions than
+          their own -- through query(inputs= str / QueryInput / mixed / ONE QueryInput object at every position of its label),
+          query_parse(file_labels= list / tuple), the IDs of the -s signature file, equal base names of query files in
+          different directories with different FASTA extensions (positional and -l/--ldir)      query-labels  P (per position)
   quant   N >= 1: 1..len+1, 1000 (rows); NumPy int8..uint64 / intp scalars, bool, 2**31-1 .. 10**30 (rowx-forms,
           rowenv-forms); per-config N, 2**40, np.int64 via **kw (queryx); CLI default 10 (query, queryx, queryenv)
   quant   CPU-feature dispatch             rowenv, rowenv-forms (get_result_item); queryenv (whole query + CLI)
@@ -61,6 +67,9 @@ judged there: checker-accepted prefix, exact distance, taxon, head = closest_mat
                                            query_parse() (params + file_labels / **kw), get_result_item(), `gambit query`, bare query(db, sigs) (N = 10);
                                            every step: length min(N the caller set, #refs of THAT database) + P, exporters on some
                                            results, earlier results unchanged, caller's objects equal to copies taken before the call
+  api     aliasing between the items of one batch   query-labels: equal / identical input labels and ONE QueryInput object
+                                           shared by several positions (state and aliasing: the only per-batch key a caller
+                                           supplies besides the position is the label)
   api     query(): params / **kw / inputs= / progress=None; query_parse(): params + file_labels / **kw, parse_kw
           concurrency None / threads / processes; classify_strict (API) and --strict / --no-strict (CLI)   queryx
   channel CSV, JSON, archive (-f), -d and $GAMBIT_DB_PATH, -s / files / -l                      queryx
@@ -92,7 +101,10 @@ RULE = ('row/rowenv: (N, [(float32 distance, taxon)], taxonomy) -> get_result_it
         'query_parse(); per-config N, chunk size, thread count, classify_strict; then `gambit query` (csv, json, archive; '
         '-s / files / -l; --cores; --strict; -d / GAMBIT_DB_PATH): every list = the model list for its N, CSV '
         'closest.description / closest.distance = JSON closest_genomes[0] = archive closest_genomes[0] = archive '
-        'closest_match.  queryenv: such databases queried and exported in sub-processes under each NPY_DISABLE_CPU_FEATURES '
+        'closest_match.  query-labels (kind queryx): the same with 2-12 different query genomes whose input labels are equal / '
+        'empty / drawn from a pool of 1-3 / the default labels of other positions, given as inputs= (str, QueryInput, one '
+        'shared QueryInput object), file_labels=, IDs of the -s file or equal file base names in different directories: the '
+        'result at every position must be the model list of the query genome AT THAT POSITION (labels are not judged).  queryenv: such databases queried and exported in sub-processes under each NPY_DISABLE_CPU_FEATURES '
         '/ OMP_NUM_THREADS setting: same lists as the model in every environment.  multidb: 2-4 generated databases over '
         'one taxonomy with fewer than N, exactly N and more than N references (identical / equidistant ones included) '
         'visited in ascending, descending, large-small-large or interleaved order (with revisits) by 2-9 calls -- query() via '
@@ -540,8 +552,9 @@ def build_db(case, d):
 	qd = os.path.join(d, 'q')
 	os.makedirs(qd)
 	qsigs = SignatureList([np.array(sorted(set(q)), dtype=kspec.index_dtype) for q in case['queries']], kspec)
-	dump_signatures(os.path.join(qd, 'q.gs'), AnnotatedSignatures(qsigs, [f'q{i}' for i in range(len(case['queries']))],
-	                                                              SignaturesMeta()), 'hdf5')
+	# IDs of the query signature file (`gambit query -s` labels its inputs with them): the case's labels when it has any
+	qids = list(case['labels']) if case.get('labels') is not None else [f'q{i}' for i in range(len(case['queries']))]
+	dump_signatures(os.path.join(qd, 'q.gs'), AnnotatedSignatures(qsigs, qids, SignaturesMeta()), 'hdf5')
 	return qsigs
 
 
@@ -814,10 +827,12 @@ def check_queryx_case(case):
 			raise ValueError('extras')
 	if case.get('idattr', 'refseq_acc') not in IDATTRS or case.get('dbform', 'dir') not in DBFORMS:
 		raise ValueError('idattr/dbform')
+	if case.get('labels') is not None and (len(case['labels']) != len(case['queries']) or any(not isinstance(l, str) for l in case['labels'])):
+		raise ValueError('labels')
 	for c in case.get('configs') or []:
 		if c['n'] < 1 or c['qform'] not in QFORMS or c['call'] not in CALLS or (c['chunk'] is not None and c['chunk'] < 1):
 			raise ValueError('config')
-		if c.get('pk', 'none') not in ('none', 'threads', 'processes') or (c.get('threads') or 1) < 1:
+		if c.get('pk', 'none') not in ('none', 'threads', 'processes') or (c.get('threads') or 1) < 1 or c.get('inform', 'str') not in INFORMS:
 			raise ValueError('config')
 	for c in case.get('cli') or []:
 		if c['input'] not in ('sig', 'files', 'listfile') or c['dbarg'] not in ('-d', 'env'):
@@ -839,8 +854,14 @@ def write_query_files(case, d):
 	"""FASTA files (one per query) + a list file; -> paths"""
 	qd = os.path.join(d, 'q')
 	paths = []
+	labels = case.get('labels')
 	for i, q in enumerate(case['queries']):
 		p = os.path.join(qd, f'query {i}.fasta' if i % 2 else f'query{i}.fa')
+		if labels is not None:
+			# the command labels a file by its base name without directory and FASTA extension: one sub-directory per
+			# query and rotating extensions, so that equal labels become equal file IDs of different files
+			os.makedirs(os.path.join(qd, f's{i}'))
+			p = os.path.join(qd, f's{i}', file_stem(labels[i]) + ('.fasta', '.fa', '.fna')[i % 3])
 		seq = query_seq(sorted(set(q)), case['k'])
 		with open(p, 'w') as f:
 			if i % 3 == 2 and len(seq) > 12:
@@ -851,8 +872,13 @@ def write_query_files(case, d):
 				f.write(f'>q{i} some description\n{seq}\n')
 		paths.append(p)
 	with open(os.path.join(qd, 'list.txt'), 'w') as f:
-		f.write(''.join(os.path.basename(p) + '\n' for p in paths))
+		f.write(''.join(os.path.relpath(p, qd) + '\n' for p in paths))
 	return paths
+
+
+def file_stem(label):
+	"""a file name carrying the label (equal labels -> equal names, different labels -> different names)"""
+	return ''.join(c if c.isalnum() or c in ' -_' else '%%%02x' % ord(c) for c in label) or '%empty'
 
 
 def file_signature(case, i):
@@ -928,6 +954,7 @@ def run_config(db, case, cfg, d, shared, qsets, files):
 	from gambit.kmers import KmerSpec
 	kspec = KmerSpec(case['k'], 'AT')
 	n, cs, strict, call = cfg['n'], cfg['chunk'], bool(cfg.get('strict')), cfg['call']
+	labels = case.get('labels')
 	gidx = {g.genome.key: i for i, g in enumerate(db.genomes)}
 	if cfg.get('threads'):
 		from gambit._cython.threads import omp_set_num_threads
@@ -939,7 +966,9 @@ def run_config(db, case, cfg, d, shared, qsets, files):
 			          processes=dict(max_workers=2))[cfg.get('pk', 'none')]
 			if cfg['qform'] in ('siglist', 'list', 'u64'):
 				res = query_parse(db, sf, QueryParams(report_closest=n, chunksize=cs, classify_strict=strict),
-				                  file_labels=[f'label {i}' for i in range(len(sf))], parse_kw=pk)
+				                  file_labels=list(labels) if labels is not None else [f'label {i}' for i in range(len(sf))], parse_kw=pk)
+			elif labels is not None:
+				res = query_parse(db, sf, file_labels=tuple(labels), report_closest=n, chunksize=cs, classify_strict=strict, parse_kw=pk)
 			else:
 				res = query_parse(db, sf, report_closest=n, chunksize=cs, classify_strict=strict, parse_kw=pk)
 		else:
@@ -953,7 +982,7 @@ def run_config(db, case, cfg, d, shared, qsets, files):
 					res = query(db, qs, params=None, report_closest=np.int64(n), classify_strict=strict,
 					            chunksize=None if cs is None else np.int64(cs))
 				elif call == 'inputs':
-					res = query(db, qs, QueryParams(strict, cs, n), inputs=[f'in {i}' for i in range(len(qsets))], progress=None)
+					res = query(db, qs, QueryParams(strict, cs, n), inputs=query_inputs(labels, len(qsets), cfg.get('inform', 'str')), progress=None)
 				else:
 					shared.report_closest, shared.chunksize, shared.classify_strict = n, cs, strict
 					res = query(db, qs, shared)
@@ -967,6 +996,25 @@ def run_config(db, case, cfg, d, shared, qsets, files):
 	om = lambda m: [gidx[m.genome.genome.key], f32_bits(float(m.distance)),
 	                None if m.matched_taxon is None else int(m.matched_taxon.key[1:])]
 	return [dict(match=om(it.classifier_result.closest_match), closest=[om(m) for m in it.closest_genomes]) for it in res.items], res
+
+
+INFORMS = ['str', 'obj', 'mixed', 'sameobj']
+
+
+def query_inputs(labels, nq, form):
+	"""the inputs= argument of query(): the case's labels (default: distinct ones) as strings, as QueryInput objects, as a
+	mixture of both, or with ONE QueryInput object standing at every position that has its label"""
+	from gambit.query import QueryInput
+	if labels is None:
+		return [f'in {i}' for i in range(nq)]
+	if form == 'obj':
+		return [QueryInput(l) for l in labels]
+	if form == 'mixed':
+		return [QueryInput(l) if i % 2 else l for i, l in enumerate(labels)]
+	if form == 'sameobj':
+		objs = {}
+		return tuple(objs.setdefault(l, QueryInput(l)) for l in labels)
+	return list(labels)
 
 
 def export_outputs(res, d, tag, pretty):
@@ -1796,6 +1844,67 @@ def gen_queryx_case(rng):
 	return c
 
 
+LABEL_POOL = ['sample', 'genome', 'contigs', 'assembly 1', 'a.b', '1', '2', 'Ünïcode', 'x' * 40, 'query', 'None', '0']
+
+
+def gen_labels(rng, queries):
+	"""one label per query in which at least two DIFFERENT query genomes (where there are any) carry the same label"""
+	nq = len(queries)
+	scheme = rng.choice(['all-equal', 'all-empty', 'pool', 'pool', 'positions', 'one-pair'])
+	if scheme == 'all-equal':
+		return scheme, [rng.choice(LABEL_POOL)] * nq
+	if scheme == 'all-empty':
+		return scheme, [''] * nq
+	if scheme == 'positions':
+		# the default labels '1' .. 'nq' at other positions than their own, with one of them repeated
+		labels = [str(i + 1) for i in range(nq)]
+		labels = labels[1:] + labels[:1]
+		labels[rng.randrange(nq)] = labels[rng.randrange(nq)]
+		return scheme, labels
+	if scheme == 'one-pair':
+		labels = [f'{rng.choice(LABEL_POOL)} {i}' for i in range(nq)]
+	else:
+		pool = rng.sample(LABEL_POOL, rng.choice([1, 2, 2, 3])) + ([''] if rng.random() < 0.3 else [])
+		labels = [rng.choice(pool) for _ in range(nq)]
+	# make sure two queries with different k-mer sets share a label
+	pairs = [(i, j) for i in range(nq) for j in range(i + 1, nq) if queries[i] != queries[j]]
+	if pairs and not any(labels[i] == labels[j] for i, j in pairs):
+		i, j = rng.choice(pairs)
+		labels[j] = labels[i]
+	return scheme, labels
+
+
+def gen_qlabels_case(rng):
+	"""a multi-query batch whose input labels collide (equal / empty / default-looking labels on different query genomes),
+	sent through every channel that takes labels: query(inputs=), query_parse(file_labels=), the IDs of a -s signature
+	file, the base names of query files in different directories (positional and -l)"""
+	nrefs = rng.choice([2, 3, 5, 9, 12, 17, 40])
+	files = rng.random() < 0.5
+	nq = rng.choice([2, 2, 3]) if files else rng.choice([2, 3, 4, 6, 12])
+	c = gen_queryx_base(rng, nrefs, nq)
+	# different genomes first: queries drawn from one pool are often equal, and equal queries cannot show a mix-up
+	hi = 4 ** c['k']
+	for i in range(nq):
+		while c['queries'][i] in c['queries'][:i]:
+			c['queries'][i] = sorted(set(c['queries'][i] + [rng.randrange(hi)]))
+	if nq > 2 and rng.random() < 0.3:
+		c['queries'][-1] = list(c['queries'][0])       # ... and one genome given twice
+	c['descs'] = gen_descs(rng, nrefs)
+	c['dbform'] = rng.choice(DBFORMS)
+	c['label_scheme'], c['labels'] = gen_labels(rng, c['queries'])
+	n0 = rng.choice([1, 2, 3, 10, nrefs])
+	calls = ['inputs', 'inputs'] + (['parse', 'parse'] if files else [rng.choice(['params', 'kw', 'shared'])])
+	forms = rng.sample(INFORMS, 2)
+	c['configs'] = [dict(n=n0 if rng.random() < 0.7 else rng.choice([1, 2, 10, nrefs + 1]), chunk=pick_chunk(rng, nrefs, nq),
+	                     qform=rng.choice(QFORMS if j % 2 else ['siglist', 'list', 'u64']), call=call, strict=False,
+	                     threads=rng.choice([1, 1, 2]), pk=rng.choice(['none', 'threads']), inform=forms[j % 2])
+	                for j, call in enumerate(calls)]
+	c['n'] = n0
+	c['cli'] = [dict(cores=rng.choice([0, 1, 2]), strict=rng.choice([None, False]), input=inp, dbarg=rng.choice(['-d', '-d', 'env']))
+	            for inp in ['sig'] + ([rng.choice(['files', 'listfile'])] if files else [])]
+	return c
+
+
 def gen_queryenv_case(rng, envs):
 	nrefs = rng.choice([2, 5, 9, 17, 40, 70, 150])
 	nq = rng.choice([1, 3, 8, 20])
@@ -1940,6 +2049,11 @@ def generate(ctx):
 	for _ in range(ctx.pick(6, 60)):
 		ctx.count('stream:queryenv')
 		yield 'queryenv', gen_queryenv_case(rng, envs)
+	# batches of different query genomes with colliding input labels (equal, empty, default-looking), through every
+	# channel that carries labels; judged per position like every queryx case
+	for _ in range(ctx.pick(10, 120)):
+		ctx.count('stream:query-labels')
+		yield 'queryx', gen_qlabels_case(rng)
 	# malformed stream: no reference at all (np.argmin raises ValueError before anything is reported)
 	ctx.count('stream:malformed')
 	yield 'row', dict(n=10, taxa=taxa0, refs=[], layout='1d')
